@@ -34,7 +34,7 @@ def regions_pool(np):
 def lines_pool():
     out = []
     for y in (20, 45, 70, 95, 130):
-        for x0, x1 in ((15, 35), (15, 105), (-20, 150), (45, 75), (85, 108), (120, 180), (205, 250), (60, 61)):
+        for x0, x1 in ((15, 35), (15, 105), (-20, 150), (45, 75), (85, 108), (120, 180), (205, 250), (60, 61), (25, 150), (-20, 95)):
             out.append([[x0, y], [x1, y]])
     out += [[[0, 0], [120, 120]], [[20, 100], [100, 20]], [[15, 15], [60, 40], [105, 20]], [[20, 20], [20, 100]]]
     return out
@@ -220,7 +220,7 @@ def run(ctx):
         seen.add(s)
         fails.append(Failure(s, 'assignment contract %s fails: %s on %s' % (f['clause'], f['observed'], f['input']), function='assign_lines_to_regions',
                              input=f['input'], observed=f['observed'], clause=f['clause']))
-    ctx.add_bounded('assign-lines', '6 rectilinear regions (singly, pairs, all) x 44 baselines (singly, strided pairs, half of all)', res['evaluations'], res['nontrivial'], False,
+    ctx.add_bounded('assign-lines', '6 rectilinear regions (singly, pairs, all) x 54 baselines (incl. crossings of the U whose first piece is the shorter / the longer one) (singly, strided pairs, half of all)', res['evaluations'], res['nontrivial'], False,
                     res['samples'], fails, rule='every configuration of the stated grid; non-trivial = at least one region and one line', clause='shapely clauses on the result')
     bounded.close()
     ctx.trusted += ['A6: shapely predicates and intersections', 'float32 rounding of the bounding boxes (A2)']
